@@ -187,6 +187,11 @@ ScanEff(s) ==
     /\ must' = FALSE
     /\ UNCHANGED <<cc, now, prot, pend>>
 
+(* GET /index (beyond C04's statement; C02 clause "the block index lists only complete blocks     *)
+(* with their true sizes", here while writes, pulls and trash requests run concurrently): every    *)
+(* line naming H is "complete" (size = length of the block, or of the copy the harness placed).    *)
+IndexOk(entries) == \A i \in DOMAIN entries : entries[i] = "complete"
+
 Tick(d)         == d >= 0 /\ TickEff(d)
 Call(id, op, mount, req) == pend[id].op = "none" /\ CallEff(id, op, mount, req)
 Ret(id, status) == RetOk(id, status) /\ RetEff(id, status)
